@@ -1,6 +1,6 @@
 (* C01 — a compiled field returns exactly what composing the user functions returns.
    Property theorems only; proofs live in Proofs/{Sim,L2,Counts,C01Main,C01Inst}.v. *)
-From Connectome Require Import Values Attrs VM Edges Evaluator L2 HashSound SpecEq C01Main C01Inst C01Readable EdgeFacts Examples.
+From Connectome Require Import Values Attrs VM Edges Evaluator L2 HashSound SpecEq C01Main C01Inst C01Readable EdgeFacts RaiseDir C01Raise Examples.
 Local Open Scope list_scope.
 
 (* The generic statement: ANY graph shape whose parents precede their children, ARBITRARY generator trees for
@@ -61,6 +61,23 @@ Theorem C01_never_stuck :
   forall k why s, call (shape g) (gens_of g) apply raises cstore cget cset interfere ins o σ k <> Stuck cstore why s.
 Proof. exact never_stuck_cachefree. Qed.
 Print Assumptions C01_never_stuck.
+
+(* "It raises only what a user function raises": [quiet] is the behaviour in which no user function raises.  If the
+   composition is defined then, under ANY behaviour [raises] of the user functions, the call - observed after any
+   number of machine steps - is still running (only before step k), or has returned that composition, or has
+   stopped with the exception of a user function that did raise at a call the machine executed
+   ([user_raise]: outcome Raised (EUser f) with raises f pos kw = true).  It is never stuck and never stops with
+   anything else.  The machine consults [raises] in one place only, so a run is the failure-free run up to the
+   first call that raises (RaiseDir.v). *)
+Theorem C01_raises_only_user_exceptions :
+  forall (g : graph) apply raises ins (cstore : Type) cget cset interfere o fuel v (σ : cstore),
+  wf g -> no_cache g -> o <= List.length g ->
+  spec g apply quiet ins WC fuel o = Some v ->
+  exists k s', forall k',
+    let out := call (shape g) (gens_of g) apply raises cstore cget cset interfere ins o σ k' in
+    (exists s1, out = Running cstore s1 /\ k' < k) \/ out = Finished cstore v s' \/ user_raise raises cstore out.
+Proof. exact cachefree_only_user_exceptions. Qed.
+Print Assumptions C01_raises_only_user_exceptions.
 
 (* Non-vacuity: a diamond with a repeated parent, keyword binding, a switch, a by-value node and a barrier
    meets every hypothesis, and its specification value is the expected composition. *)
